@@ -214,7 +214,7 @@ class Model:
     def show_tokens(self, y: int, p: int, blob: bytes, solicited: bool) -> bool:
         """
         Returns whether the blob was a sequence of valid tokens, each behind the genesis or a token that y must
-        already hold (``lower``: tokens that arrived that way while y's user had named p in a registration). Only
+        already hold (``lower``: tokens that arrived that way while a current registration of y named p). Only
         such a message is *required* to be acted upon (C1h); the upper bound (C1) uses everything ever shown.
         """
         tokens = self.view[y][p].tokens
@@ -490,7 +490,8 @@ class Run:
                         self.flags.add("two_live")
                     if any(r["subj"] == p and self.now() - r["t"] > LIMIT for r in m.latest(y).values()):
                         self.flags.add("after_expiry")
-                solicited = any(r["subj"] == p for r in m.regs[y])
+                # lower bound for the progress clause: a registration that was overwritten no longer solicits
+                solicited = any(r["subj"] == p for r in m.latest(y).values())
                 if msg_id == 1:
                     m.last_in_order[(p, y)] = m.show_tokens(y, p, payload.tokens, solicited)
                     if any((p, mdh) in m.attested[y] for mdh in m.show_metadata(y, p, payload.metadata)):
